@@ -4,10 +4,10 @@ CONSTANTS
     MaxAge = 3
     MaxDt = 2
     MaxBDt = 1
-    RestoreKeepsEpisodeStart = FALSE
-    LeaveOKStartsDuration = TRUE
     BatchGaps = {1}
     MaxBatch = 2
+    QCap = 2
+    Variant = {"restore-from-event-time"}
 INVARIANTS
     TypeOK
     LevelRule
